@@ -63,8 +63,31 @@ class RarSetup:
             stubs = {'sample_in_time_domain': stub_time, 'sample_in_omega_domain': make_stub_omega(d)}
             self.sizes = ((S_T, S_X), (SEL_T, SEL_X))
         self.data0 = data
-        self.data = data if real_samplers else data.replace_fields(stubs)
-        self.stub_names = set() if real_samplers else set(stubs)
+        if real_samplers == 'checked':
+            # the generator's own samplers are really called; their draws must lie in the generator's own domain (time interval /
+            # box of this axis); the network then receives canonical points of the same counts
+            from .C08 import expect_draw
+
+            def wrap(name, stub):
+                real = getattr(data, name)
+
+                def w(*a, **k):
+                    v = to_at(real(*a, **k))
+                    if name == 'sample_in_time_domain':
+                        for p_ in v.entries():
+                            expect_draw(p_, K('tmin'), K('tmax'), "refinement candidate time")
+                    else:
+                        dd = v.axes[-1]
+                        for j in range(dd):
+                            for p_ in v[..., j].entries():
+                                expect_draw(p_, K(f'min{j}'), K(f'max{j}'), f"refinement candidate coordinate {j}")
+                    return stub(*a, **k)
+                return w
+            self.data = data.replace_fields({n: wrap(n, st) for n, st in stubs.items()})
+            self.stub_names = set()
+        else:
+            self.data = data if real_samplers else data.replace_fields(stubs)
+            self.stub_names = set() if real_samplers else set(stubs)
 
     def fn(self, name):
         return self.rar.env.get(name)
